@@ -136,6 +136,96 @@ def _check_ancestor_merge(rep, fi, label: str) -> None:
     rep.check(shape_ok, "C16.R2", f"{label}: later value overwrites, two lists concatenate without duplicates", "if key in merged and both are lists: extend without duplicates else merged[key] = value", fi.file, outer.lineno if outer is not None else fn.lineno, disc=f"overwrite:{label}")
 
 
+CACHE_DECORATORS = ("lru_cache", "cache", "cached", "memoize", "cached_property")
+FRESH_CALLS = ("json.loads", "loads", "dict", "list", "copy.deepcopy", "deepcopy", "copy.copy")
+
+
+def _fresh_source(e: ast.expr, fi, prog, depth: int = 0):
+    """(True, how) when evaluating `e` yields an object nobody else holds (a new parse / copy / row value from the driver);
+    (False, why) when it may hand out a shared object (memoised function, module-level state); (None, what) when unknown."""
+    if isinstance(e, ast.BoolOp):
+        rs = [_fresh_source(v, fi, prog, depth) for v in e.values]
+        bad = [r for r in rs if r[0] is not True]
+        return bad[0] if bad else (True, "each alternative fresh")
+    if isinstance(e, (ast.Dict, ast.List, ast.Set, ast.Constant, ast.ListComp, ast.DictComp, ast.SetComp)):
+        return True, "literal / comprehension"
+    if isinstance(e, ast.Subscript) and isinstance(e.value, ast.Name) and isinstance(e.slice, ast.Constant) and isinstance(e.slice.value, (str, int)):
+        return True, "column value handed out by the driver for this fetch"
+    if isinstance(e, ast.IfExp):
+        for br in (e.body, e.orelse):
+            r = _fresh_source(br, fi, prog, depth)
+            if r[0] is not True:
+                return r
+        return True, "both alternatives fresh"
+    if isinstance(e, ast.Call):
+        fn_txt = norm(e.func)
+        if fn_txt in FRESH_CALLS:
+            return True, fn_txt
+        callee = None
+        if isinstance(e.func, ast.Name):
+            callee = fi.module.functions.get(e.func.id)
+            if callee is None:
+                for imp in ast.walk(fi.module.tree):
+                    if isinstance(imp, ast.ImportFrom) and imp.module and any((a.asname or a.name) == e.func.id for a in imp.names):
+                        m = prog.modules.get(imp.module)
+                        if m is not None:
+                            callee = m.functions.get(next(a.name for a in imp.names if (a.asname or a.name) == e.func.id))
+        if callee is None:
+            return None, f"call to `{fn_txt}` could not be resolved"
+        decos = [norm(d.func) if isinstance(d, ast.Call) else norm(d) for d in callee.node.decorator_list]
+        cached = [d for d in decos if d.split(".")[-1] in CACHE_DECORATORS]
+        if cached:
+            return False, f"`{callee.qualname}` is memoised (@{cached[0]}): every caller receives the SAME object for equal arguments"
+        if depth > 3:
+            return None, "resolution depth"
+        rets = [r.value for r in ast.walk(callee.node) if isinstance(r, ast.Return) and r.value is not None]
+        if not rets:
+            return None, f"`{callee.qualname}` returns nothing recognisable"
+        for rv in rets:
+            r = _fresh_source(rv, callee, prog, depth + 1)
+            if r[0] is not True:
+                return r
+        return True, f"`{callee.qualname}` returns a fresh object"
+    if isinstance(e, ast.Name):
+        defs = [a for a in ast.walk(fi.node) if isinstance(a, ast.Assign) and len(a.targets) == 1 and norm(a.targets[0]) == e.id]
+        if len(defs) == 1 and depth <= 3:
+            return _fresh_source(defs[0].value, fi, prog, depth + 1)
+        return None, f"name `{e.id}` ({len(defs)} definitions)"
+    return None, norm(e)[:60]
+
+
+def _merge_inputs_fresh(rep, fi, label: str, prog) -> None:
+    """The merge concatenates lists IN PLACE (`existing.append(item)`; `_plan_stage` appends own items to `merged[key]`), and the
+    first occurrence of a list is stored by reference (`merged[key] = value`). That is only safe while the per-stage outputs it
+    reads are objects nobody else holds. A shared parse (memoised decoder, module-level cache) makes one stage's list items
+    appear in the outputs of every later reader - stages that are no ancestors, other workflows."""
+    fn = fi.node
+    srcs = []
+    for d in ast.walk(fn):
+        if isinstance(d, ast.Dict):
+            for k, v in zip(d.keys, d.values):
+                if isinstance(k, ast.Constant) and k.value == "outputs":
+                    srcs.append(v)
+    resolved = []
+    for v in srcs:
+        e = v
+        if isinstance(e, ast.Name):
+            pos = getattr(e, "_ord", e.lineno)
+            defs = [a for a in ast.walk(fn) if isinstance(a, ast.Assign) and len(a.targets) == 1 and norm(a.targets[0]) == e.id and getattr(a, "_ord", a.lineno) < pos]
+            if defs:
+                e = max(defs, key=lambda a: getattr(a, "_ord", a.lineno)).value      # the definition that reaches the node table (same loop body, straight-line)
+        resolved.append(e)
+    if not resolved:
+        raise AnalysisError(f"{label}: where the per-stage outputs enter the ancestor merge (`'outputs': ...` in the node table) was not found")
+    for e in resolved:
+        ok, how = _fresh_source(e, fi, prog)
+        if ok is None:
+            raise AnalysisError(f"{label}: cannot decide whether the merge input `{norm(e)[:70]}` is a fresh object ({how})")
+        rep.check(ok, "C16.R2", f"{label}: the outputs that enter the in-place merge are objects nobody else holds", f"`{norm(e)[:70]}`: {how}" + ("" if ok else
+                  " - the merge stores list values by reference and extends them in place, so items of later stages accumulate in the shared object and show up for stages that are not their descendants (and in other workflows)"),
+                  fi.file, getattr(e, "lineno", fn.lineno), disc=f"fresh-inputs:{label}")
+
+
 def run(ctx, rep) -> None:
     prog = ctx.prog
     rep.rule("C16.R1", "get_merged_ancestor_outputs: ancestors = transitive closure over requisites from the start stage (excluded); only their outputs are merged")
@@ -153,6 +243,7 @@ def run(ctx, rep) -> None:
         else:
             label = "sqlite"
         _check_ancestor_merge(rep, f, label)
+        _merge_inputs_fresh(rep, f, label, prog)
 
     # ---- R3 / R2 overlay -----------------------------------------------------------------------------------------
     ps = prog.func(PLANNER, "StartStagePlannerMixin._plan_stage") if any(c.name == "StartStagePlannerMixin" for c in prog.module(PLANNER).classes.values()) else None
@@ -308,6 +399,30 @@ def run(ctx, rep) -> None:
             how = f"{v.id}: one loop over all values, commutative fold={bool(folds)}, no early exit={no_exit}, no positional access={no_index}"
         rep.check(ok, "C16.R5", f"reducer `{name}` is insensitive to branch order", how, rm.relpath, getattr(v, "lineno", 0), disc=f"commutative:{name}")
     ar = rm.functions["apply_output_reducers"].node
-    t = norm(ar)
-    ok = "values = [outputs[key] for outputs in branch_outputs if key in outputs]" in t and "result[key] = reducer(values)" in t and "for key, reducer_name in reducers.items():" in t
-    rep.check(ok, "C16.R5", "apply_output_reducers reduces the key over every branch that produced it", "values = [outputs[key] for outputs in branch_outputs if key in outputs]", rm.relpath, ar.lineno, disc="all-branches")
+    # every value stored in the result is reducer(<all values of the key>): the collection is a comprehension over every branch
+    # output filtered by PRESENCE of the key, and no result is produced in any other way (no single-value shortcut)
+    res_assign = [a for a in ast.walk(ar) if isinstance(a, ast.Assign) and isinstance(a.targets[0], ast.Subscript) and isinstance(a.targets[0].value, ast.Name)]
+    rets_ = [r.value.id for r in ast.walk(ar) if isinstance(r, ast.Return) and isinstance(r.value, ast.Name)]
+    res_assign = [a for a in res_assign if a.targets[0].value.id in rets_]
+    all_ok, why = bool(res_assign), "no assignment into the returned mapping found"
+    for a in res_assign:
+        v = a.value
+        if not (isinstance(v, ast.Call) and isinstance(v.func, ast.Name) and len(v.args) == 1 and isinstance(v.args[0], ast.Name) and not v.keywords):
+            all_ok, why = False, f"`{norm(a)[:90]}` is not reducer(values): some results bypass the reducer"
+            break
+        vdefs = [d for d in ast.walk(ar) if isinstance(d, ast.Assign) and norm(d.targets[0]) == v.args[0].id]
+        comp = vdefs[0].value if len(vdefs) == 1 else None
+        if not (isinstance(comp, ast.ListComp) and len(comp.generators) == 1 and norm(comp.generators[0].iter) in [a_.arg for a_ in ar.args.args]):
+            all_ok, why = False, f"`{v.args[0].id}` is not a list comprehension over the branch outputs parameter"
+            break
+        g = comp.generators[0]
+        presence = len(g.ifs) == 1 and isinstance(g.ifs[0], ast.Compare) and isinstance(g.ifs[0].ops[0], ast.In) and norm(g.ifs[0].comparators[0]) == norm(g.target) and isinstance(comp.elt, ast.Subscript) and norm(comp.elt.value) == norm(g.target) and norm(comp.elt.slice) == norm(g.ifs[0].left)
+        if not presence:
+            all_ok, why = False, f"`{norm(comp)}` does not select exactly the branches in which the key is PRESENT"
+            break
+        rdefs = [d for d in ast.walk(ar) if isinstance(d, ast.Assign) and norm(d.targets[0]) == v.func.id]
+        if not rdefs or "REDUCERS" not in norm(rdefs[0].value).upper() and "reducer" not in norm(rdefs[0].value).lower():
+            all_ok, why = False, f"`{v.func.id}` is not looked up from the reducer registry"
+            break
+        why = f"result[key] = {v.func.id}({v.args[0].id}) with {v.args[0].id} = {norm(comp)}"
+    rep.check(all_ok, "C16.R5", "apply_output_reducers reduces the key over every branch that produced it", why, rm.relpath, ar.lineno, disc="all-branches")
